@@ -262,9 +262,9 @@ theorem spec_genname_plain (env : PEnv) (md : Maildir) (flags : Option Bytes) (f
   | succ fuel ih =>
     unfold genname
     simp only [bind_eq, pure_eq, call_bind]
-    have hmem : (95 : UInt8) ∈ (decimalInt env.now ++ [46] ++ decimal env.pid ++ [95] ++ decimal (count + 1) ++ [46] ++
+    have hmem : (95 : UInt8) ∈ (decimalInt env.now ++ [46] ++ decimal env.pid ++ [95] ++ decimal ((count + 1) % gennameWrap) ++ [46] ++
           env.host ++ flags.getD []) := by simp
-    generalize hnm : (decimalInt env.now ++ [46] ++ decimal env.pid ++ [95] ++ decimal (count + 1) ++ [46] ++ env.host ++
+    generalize hnm : (decimalInt env.now ++ [46] ++ decimal env.pid ++ [95] ++ decimal ((count + 1) % gennameWrap) ++ [46] ++ env.host ++
           flags.getD []) = nm at hmem ⊢
     split
     · exact .inl ⟨rfl, SameFsS.refl _⟩
@@ -284,7 +284,7 @@ theorem spec_genname_plain (env : PEnv) (md : Maildir) (flags : Option Bytes) (f
             · exact .inr ⟨fd, name, d', p', w3, h1, h2, hs.trans h3, h4⟩
           · exact .inl ⟨rfl, hs⟩
         · rw [he]
-          exact .inr ⟨_, _, d, p, w, rfl, hd, SameFsS.refl _, hp, hl, rfl, rfl, hmem, count + 1, hnm.symm⟩
+          exact .inr ⟨_, _, d, p, w, rfl, hd, SameFsS.refl _, hp, hl, rfl, rfl, hmem, (count + 1) % gennameWrap, hnm.symm⟩
 
 /-! ## standard input -/
 
@@ -471,7 +471,7 @@ theorem spec_maildirStdin (env : PEnv) (input : Bytes) {w : World} (hin : StdinI
   generalize hd : w2.handles.length = d at hd3 hdp3 hlen3 hob3 h03 hs3 hslt3 hnf3 ⊢
   generalize stepWorld w2 (.opendir p) (.ok d) = w3 at hd3 hdp3 hlen3 hob3 h03 hs3 hslt3 hnf3 ⊢
   simp only [ret_bind, Bool.false_eq_true, if_false]
-  refine wp_bind_mono (spec_genname_plain env _ none 4096 _) ?_
+  refine wp_bind_mono (spec_genname_plain env _ none gennameAttempts _) ?_
   rintro g w4 (⟨rfl, hsf⟩ | ⟨fd, name, d', p', w3', rfl, hd', hsf, hdp', hl', hfd', rfl, hname, hk⟩)
   · refine .inr ⟨tmpl, htmpl, .inr ⟨p, hp, .inr (.inl ⟨d, rfl, hsf.1.trans hd3, by rw [hsf.dirPath]; exact hdp3, by omega⟩)⟩⟩
   · dsimp only at hd'
